@@ -3,7 +3,7 @@ with a response echoing its request; an error is local to its query."""
 import os
 from lib import vf
 
-RULE = ("user JSON documents run through the REAL CompassApp (26 generated configurations: plugin lists over "
+RULE = ("user JSON documents run through the REAL CompassApp (27 generated configurations: plugin lists over "
         "grid_search / inject / load_balancer (numeric, categorical, haversine) / vertex_rtree / edge_rtree / debug, "
         "a* / dijkstra / ksp_single_via / yens, vertex and edge orientation, distance / speed-table / energy traversal, "
         "summary / traversal (every format) / uuid output plugins, termination limits, parallelism 1..8 and run-time "
@@ -12,7 +12,12 @@ RULE = ("user JSON documents run through the REAL CompassApp (26 generated confi
         "required field deleted / retyped into each of 10 JSON types, out-of-range vertex / edge ids up to u64::MAX, "
         "coordinates outside the globe / beyond f32 / ill-typed, 22 grid-search sections incl. {} [] scalars nesting "
         "under 7 configurations, weights zero / negative / unknown / ill-typed, vehicle names, load-balancer weights, "
-        "non-object queries incl. arrays, k from the query), then random batches of 0-6 mutated queries. "
+        "non-object queries incl. arrays, k from the query, sequence-form enum values; strings AND keys of 2-/3-/4-byte "
+        "UTF-8 scalars and combining marks, 1100 bytes long with 0..4 pad bytes so that every fixed byte offset of the "
+        "serialized / Debug form is a non-boundary for some case, plus one-byte length sweeps around 64/128/256/512/1024, "
+        "on every error path: wrong-typed grid sections, missing / ill-typed fields, unknown names, inject keys/values, "
+        "non-object queries), then random batches of 0-6 mutated queries (15 mutation kinds). Cases with non-ASCII "
+        "text are compared through the hash of the payload bytes on both sides. "
         "I = outcome class + (class, request) of every response in order; M = Coq pipeline model (inject, grid_search, "
         "numeric weights concrete; opaque plugins and per-query search replayed from calls recorded on the real "
         "components); S = property checker in Coq on the observed outcome (call returns Ok, every response is "
@@ -74,7 +79,7 @@ def run(chk):
     chk.proofs(extra_targets=["Model/PipelineRun.vo"])
     binp = vf.build_harness("c12")
     thorough = chk.tier != "quick"
-    n = 9000 if thorough else 1150
+    n = 10000 if thorough else 2000
     extra = ["--corpus", CORPUS]
     r = vf.run_stream(binp, "batch", n, chk.seed, os.path.join(chk.outdir, "batch"), extra=extra, replay=chk.replay)
     chk.add_stream(r, RULE)
